@@ -44,6 +44,7 @@ pub fn build(e: &str, c: &Ctx) -> Result<AnyOh, String> {
 pub fn build_from(base: OpeningHours, c: &Ctx) -> Result<AnyOh, String> {
     Ok(match c {
         Ctx::Default => AnyOh::N(base),
+        Ctx::Bounded(days) => AnyOh::N(base.with_context(Context::default().approx_bound_interval_size(chrono::TimeDelta::days(*days as i64)))),
         Ctx::Holidays(cc) => {
             let country: Country = cc.parse().map_err(|_| format!("unknown country {cc}"))?;
             AnyOh::N(base.with_context(Context::default().with_holidays(country.holidays())))
